@@ -56,3 +56,8 @@ Theorem C20_cond_update_respects_check_nbs_lockhash_refuted :
     ~ all_ok w m0 (g_log (fold_left (step_lockhash w) sched (init m0 progs))).
 Proof. exact cond_update_respects_check_nbs_lockhash_refuted. Qed.
 Print Assumptions C20_cond_update_respects_check_nbs_lockhash_refuted.
+
+Theorem C20_oracle_model_obs :
+  forall i : C20.Corr.input, i_conc i = false -> C20.Corr.oracle i (C20.Corr.model_obs i) = true.
+Proof. exact C20.Proofs.oracle_model_obs. Qed.
+Print Assumptions C20_oracle_model_obs.
